@@ -300,3 +300,49 @@ for _pr, _pc in ((False, False), (True, False), (False, True)):
     else:
         func_call.ensures = [('null-strict-then-body(args)', lambda self, row, func, result:
                               result == (None if any(o(row) is None for o in self.operands) else func(*[o(row) for o in self.operands])))]
+
+
+# ---- execute_select, non-aggregate and unordered behaviour: the row loop and the project -> DISTINCT -> LIMIT pipeline ----
+QX = 'beanquery.query_execute'
+XTARGET = Rec('EvalTarget', attrs=dict(name=Opt(Opaque('name')), c_expr=Child()))
+XTABLE = Obj('beanquery.tables:Table', fields={}, ghost=dict(_seq=ListOf(CTX)))
+XQUERY = Obj(f'{QC}:EvalQuery', fields=dict(table=XTABLE, c_targets=ListOf(XTARGET, maxlen=2), c_where=Opt(Child()), group_indexes=NoneS(), having_index=NoneS(),
+                                            order_spec=NoneS(), limit=Opt(Int(0)), distinct=Bool()))
+from contracts.c03 import uniq, mem      # noqa: E402  (the DISTINCT specification)
+
+
+@spec(rec=True, sig=(['seq', 'val', 'seq', 'int'], 'seq'))
+def rows_upto(seq, where, exprs, n):
+    """the rows of the first n source rows: one row per source row whose condition is true (NULL and false exclude it),
+    in source order, each row holding the value of every target expression on that source row"""
+    if n <= 0:
+        return []
+    context = seq[n - 1]
+    if where is None or bool(ev(where, context)):
+        return rows_upto(seq, where, exprs, n - 1) + [[c_expr(context) for c_expr in exprs]]
+    return rows_upto(seq, where, exprs, n - 1)
+
+
+@contract(f'{QX}:execute_select', 'non-aggregate-unordered')
+class execute_select_rows:
+    props = ['C01', 'C03', 'C07']
+    assumes = [PURE, 'ATTRS_PRESENT', 'the table iterator yields the ghost sequence _seq (table iterators: bounded evidence in h11)']
+    params = {'query': XQUERY}
+    pure_ctors = ['Column']
+    modifies = []
+    native = False
+    note = 'aggregate queries (group loop) and ORDER BY (multi-pass sort) are outside this contract: bounded evidence in h02, h03'
+    loops = {0: dict(inv=lambda query, rows, c_where, c_target_exprs, _i: rows == rows_upto(query.table._seq, c_where, c_target_exprs, _i))}
+
+    def _rows(query, result):
+        exprs = [c_target.c_expr for c_target in query.c_targets]
+        base = rows_upto(query.table._seq, query.c_where, exprs, len(query.table._seq))
+        visible = [index for index, c_target in enumerate(query.c_targets) if c_target.name]
+        proj = list(tuple(row[i] for i in visible) for row in base)
+        dist = uniq(proj, len(proj)) if query.distinct else proj
+        return result[1] == (dist if query.limit is None else dist[:query.limit])
+    ensures = [
+        ('description-is-the-selected-targets-in-order', lambda query, result:
+            result[0] == tuple(Column(target.name, target.c_expr.dtype) for target in query.c_targets if target.name is not None)),
+        ('rows-filter-map-then-project-distinct-limit', _rows),
+    ]
